@@ -346,7 +346,7 @@ func runCheck(prop, tier string, only []string, writeEvidence bool) int {
 	return 0
 }
 
-func runDev(files []string, pkg, prefix, mode string, maxPaths, fuel, obligMs int, params map[string]int, replay, panicsOK bool, wall int) int {
+func runDev(files []string, pkg, prefix, mode string, maxPaths, fuel, obligMs int, params map[string]int, replay, panicsOK bool, wall int, enum []string) int {
 	ld, err := loadWithHarness(pkg, files)
 	if err != nil {
 		fmt.Fprintln(os.Stderr, err)
@@ -362,7 +362,7 @@ func runDev(files []string, pkg, prefix, mode string, maxPaths, fuel, obligMs in
 	sort.Strings(names)
 	exit := 0
 	for _, name := range names {
-		hc := harnessCfg{Name: name, Mode: mode, MaxPaths: maxPaths, Fuel: fuel, ObligMs: obligMs, PanicsOK: panicsOK, WallS: wall}
+		hc := harnessCfg{Name: name, Mode: mode, MaxPaths: maxPaths, Fuel: fuel, ObligMs: obligMs, PanicsOK: panicsOK, WallS: wall, Enumerate: enum}
 		res := explore(ld, ld.pkg.Func(name), hc, params, loadKnown())
 		fmt.Println(res.summary())
 		var ls []string
